@@ -13,6 +13,7 @@ import (
 	"context"
 	"errors"
 	"fmt"
+	"io"
 	"reflect"
 	"sort"
 	"time"
@@ -109,8 +110,9 @@ func c20Impl() [][2]any {
 // ---- the case language (JSON shared with the oracle) ----
 
 type c20Handler struct {
-	S int    `json:"s"`
-	T string `json:"t"`
+	S      int    `json:"s"`
+	T      string `json:"t"`
+	Stream bool   `json:"stream,omitempty"` // C07: WithStreamStatePre/PostHandler instead of the value form
 }
 
 type c20Op struct {
@@ -124,6 +126,12 @@ type c20Op struct {
 	Post   *c20Handler `json:"post,omitempty"`
 	KeyOpt bool        `json:"keyOpt,omitempty"`
 	Dyn    string      `json:"dyn,omitempty"` // concrete type of the value the lambda returns
+	// C07 only: the node is a graph (START -> lambda In->Out -> END) added with AddGraphNode;
+	// WithInputKey("k") / WithOutputKey("k"): its declared input / output type is map[string]any
+	Sub    bool   `json:"sub,omitempty"`
+	InKey  bool   `json:"inKey,omitempty"`
+	OutKey bool   `json:"outKey,omitempty"`
+	IDyn   string `json:"idyn,omitempty"` // with OutKey: what the lambda itself returns (Dyn is then c5, the map)
 	// edge / branch
 	S      string   `json:"s,omitempty"`
 	E      string   `json:"e,omitempty"`
@@ -150,6 +158,7 @@ type c20Case struct {
 	Ops    []c20Op   `json:"ops"`
 	Inject string    `json:"inject,omitempty"` // violation kind injected by the generator (informational)
 	Runs   []string  `json:"runs,omitempty"`   // C07: dynamic types of the START values to run with
+	SRuns  bool      `json:"streamRuns,omitempty"` // C07: every run also through Stream (output drained)
 	Extra  *c20WfExt `json:"wf,omitempty"`
 }
 
@@ -196,6 +205,12 @@ var c20Branches = map[string]func(pick string, ends map[string]bool) *compose.Gr
 var c20Pres = map[string]func() compose.GraphAddNodeOpt{}
 var c20Posts = map[string]func() compose.GraphAddNodeOpt{}
 
+// stream forms of the state handlers and the Stream side of the last successful Compile:
+// filled / read by C07 only (c07_keys.go)
+var c20StreamPres = map[string]func() compose.GraphAddNodeOpt{}
+var c20StreamPosts = map[string]func() compose.GraphAddNodeOpt{}
+var c20LastStream c20RunFn
+
 func c20RegPair[I, O any](i, o string) {
 	c20Graphs[i+">"+o] = func(opts ...compose.NewGraphOption) (c20Builder, c20CompileFn) {
 		g := compose.NewGraph[I, O](opts...)
@@ -203,6 +218,24 @@ func c20RegPair[I, O any](i, o string) {
 			r, err := g.Compile(ctx, copts...)
 			if err != nil {
 				return nil, err
+			}
+			c20LastStream = func(ctx context.Context, in any) (any, error) {
+				sr, err := r.Stream(ctx, in.(I))
+				if err != nil {
+					return nil, err
+				}
+				defer sr.Close()
+				var last any
+				for {
+					v, e := sr.Recv()
+					if e == io.EOF {
+						return last, nil
+					}
+					if e != nil {
+						return nil, e
+					}
+					last = v
+				}
 			}
 			return func(ctx context.Context, in any) (any, error) { return r.Invoke(ctx, in.(I)) }, nil
 		}
@@ -266,15 +299,47 @@ func c20StateOpt(s *int) []compose.NewGraphOption {
 func c20NodeOpts(op *c20Op) []compose.GraphAddNodeOpt {
 	var opts []compose.GraphAddNodeOpt
 	if op.Pre != nil {
-		opts = append(opts, c20Pres[fmt.Sprintf("%s/%d", op.Pre.T, op.Pre.S)]())
+		k := fmt.Sprintf("%s/%d", op.Pre.T, op.Pre.S)
+		if op.Pre.Stream {
+			opts = append(opts, c20StreamPres[k]())
+		} else {
+			opts = append(opts, c20Pres[k]())
+		}
 	}
 	if op.Post != nil {
-		opts = append(opts, c20Posts[fmt.Sprintf("%s/%d", op.Post.T, op.Post.S)]())
+		k := fmt.Sprintf("%s/%d", op.Post.T, op.Post.S)
+		if op.Post.Stream {
+			opts = append(opts, c20StreamPosts[k]())
+		} else {
+			opts = append(opts, c20Posts[k]())
+		}
 	}
 	if op.KeyOpt {
 		opts = append(opts, compose.WithNodeKey("custom_"+op.Key))
 	}
+	if op.InKey {
+		opts = append(opts, compose.WithInputKey("k"))
+	}
+	if op.OutKey {
+		opts = append(opts, compose.WithOutputKey("k"))
+	}
 	return opts
+}
+
+// c20SubGraph: the graph START -> l (lambda In -> Out returning a value of dynamic type dyn) -> END
+func c20InnerDyn(op *c20Op) string {
+	if op.IDyn != "" {
+		return op.IDyn
+	}
+	return op.Dyn
+}
+
+func c20SubGraph(op *c20Op) compose.AnyGraph {
+	g, _ := c20Graphs[op.In+">"+op.Out]()
+	_ = g.AddLambdaNode("l", c20Lambdas[op.In+">"+op.Out](c20InnerDyn(op)))
+	_ = g.AddEdge(compose.START, "l")
+	_ = g.AddEdge("l", compose.END)
+	return g.(compose.AnyGraph)
 }
 
 func c20CompileOpts(op *c20Op) []compose.GraphCompileOption {
@@ -387,6 +452,7 @@ type c20Obs struct {
 	Out   []string `json:"out"`             // class of every call, in order
 	R1    []string `json:"r1,omitempty"`    // first runnable: run right after its compile, and again at the end
 	Runs  []string `json:"runs,omitempty"`  // C07: class of every run of the last runnable
+	RunsS []string `json:"runsS,omitempty"` // C07: the same runs through Stream
 	Notes []string `json:"notes,omitempty"` // panic values / messages (never compared)
 }
 
@@ -420,8 +486,12 @@ func c20ExecGraph(c *c20Case) (obs c20Obs, last c20RunFn) {
 			case "node":
 				if op.PT {
 					err = g.AddPassthroughNode(op.Key, c20NodeOpts(op)...)
+				} else if op.Sub {
+					err = g.(interface {
+						AddGraphNode(key string, node compose.AnyGraph, opts ...compose.GraphAddNodeOpt) error
+					}).AddGraphNode(op.Key, c20SubGraph(op), c20NodeOpts(op)...)
 				} else {
-					err = g.AddLambdaNode(op.Key, c20Lambdas[op.In+">"+op.Out](op.Dyn), c20NodeOpts(op)...)
+					err = g.AddLambdaNode(op.Key, c20Lambdas[op.In+">"+op.Out](c20InnerDyn(op)), c20NodeOpts(op)...)
 				}
 			case "edge":
 				err = g.AddEdge(op.S, op.E)
